@@ -89,7 +89,8 @@ REQUIRED_BUCKETS = ["single-element", "t<offset", "boundary", "many-periods", "l
                    [f"op/keep/{k}" for k in ("cyc_active", "light_active", "color", "direction", "position", "id", "shape",
                                               "translate_rotate", "convert_to_2d", "eq", "hash", "str", "repr", "deepcopy_cycle",
                                               "pickle_cycle", "deepcopy_light", "pickle_light", "deepcopy_holder", "pickle_holder",
-                                              "copy_network", "holder_translate_rotate", "raise_q", "raise_tr", "raise_empty", "draw")]
+                                              "copy_network", "holder_translate_rotate", "raise_q", "raise_tr", "raise_empty", "draw",
+                                              "shallow_copy_off", "shallow_copy_es", "shallow_copy_query")]
 
 K_DUR = "C17/cycle.get_state_at_time_step/stale-after/element.duration=(held)"
 K_APP = "C17/cycle.get_state_at_time_step/stale-after/cycle_elements.append(in-place)"
@@ -112,7 +113,9 @@ DIMENSIONS = {
     ("TrafficLightCycle", "ctor", "active"): "True / False / omitted (hist cyc_active)",
     ("TrafficLightCycle", "set", "cycle_elements"): "hist op `es`: new list, same list object edited in place and re-assigned, "
                                                     "permutation / repetition of the held element objects; before and after queries",
-    ("TrafficLightCycle", "set", "time_offset"): "hist op `off` (also the unchanged value, numpy ints), in both orders with `es`",
+    ("TrafficLightCycle", "set", "time_offset"): "hist op `off` (also the unchanged value, numpy ints), in both orders with `es`; on a "
+                                                 "SHALLOW copy (copy.copy shares list, elements and memoised table) by the keep ops "
+                                                 "`shallow_copy_off` / `shallow_copy_es` / `shallow_copy_query`: the original must not change",
     ("TrafficLightCycle", "set", "active"): "hist keep op `cyc_active`",
     ("TrafficLightCycle", "get", "cycle_init_timesteps"): "hist op `read` (before / after the first query)",
     ("TrafficLightCycle", "op", "get_state_at_time_step"): "the observation; t as int / numpy.int64 / numpy.int32, negative, huge (|t - offset| up to the int64 edges)",
@@ -540,7 +543,8 @@ def run_case(ctx, case):
 
 
 # ------------------------------------------------------------------------------------------------ history stream
-KEEPS_ANY = ["cyc_active", "eq", "hash", "str", "repr", "deepcopy_cycle", "pickle_cycle", "raise_q"]
+KEEPS_ANY = ["cyc_active", "eq", "hash", "str", "repr", "deepcopy_cycle", "pickle_cycle", "raise_q",
+             "shallow_copy_off", "shallow_copy_es", "shallow_copy_query"]
 KEEPS_LIGHT = ["light_active", "color", "direction", "position", "id", "shape", "translate_rotate", "convert_to_2d",
                "deepcopy_light", "pickle_light", "raise_tr", "draw"]
 KEEPS_HOLD = ["deepcopy_holder", "pickle_holder", "copy_network", "holder_translate_rotate"]
@@ -1076,6 +1080,20 @@ def run_hist(ctx, case):
                     m_ops.append(["read"])
                     ctx.tag("op/keep/raise_empty")
                     continue
+            elif name in ("shallow_copy_off", "shallow_copy_es", "shallow_copy_query"):
+                # a SHALLOW copy of the cycle (copy.copy shares the element list, the element objects and any memoised table
+                # with the original) whose OWN bindings are then changed through its public setters / queried: the original
+                # cycle was given no new data, so it must go on answering by its own elements and offset (round-6 seed C17_12:
+                # an offset setter shifting the shared table in place)
+                twin_c = copy.copy(cyc)
+                if name == "shallow_copy_off":
+                    twin_c.time_offset = _num(ityp, book.off + 3 + len(impl) % 4)
+                elif name == "shallow_copy_es":
+                    twin_c.cycle_elements = [E(st[(j + 1) % 5], _num(ityp, j % 3 + 2)) for j in range(len(book.order) % 3 + 1)]
+                    call(twin_c.get_state_at_time_step, book.off + 1)
+                else:
+                    call(twin_c.get_state_at_time_step, book.off + len(impl))
+                    call(lambda: twin_c.cycle_init_timesteps)
             elif name in ("deepcopy_cycle", "pickle_cycle") and light is None:
                 cyc = copy.deepcopy(cyc) if name == "deepcopy_cycle" else pickle.loads(pickle.dumps(cyc))
                 _rebind(objs, book, cyc)
